@@ -14,12 +14,13 @@ FLAGN = {
     'GLOBTILDE': P.GLOBTILDE, 'NOUNIQUE': P.NOUNIQUE, 'NODOTDIR': P.NODOTDIR, 'GLOBSTARLONG': P.GLOBSTARLONG,
     'MARK': G.MARK, 'SCANDOTDIR': G.SCANDOTDIR,
 }
+ALIASES = {'DOTGLOB': 'DOTMATCH', 'EXTGLOB': 'EXTMATCH'}
 
 
 def flags_of(names):
     v = 0
     for n in names:
-        v |= FLAGN[n]
+        v |= FLAGN[ALIASES.get(n, n)]
     return v
 
 
